@@ -333,9 +333,9 @@ def main(chk):
                 'PHA1/PHA1Q, PP, CMAP (and the written sum), MDPMAPCUBE, PMAPCUBE, LC with equal exposures, LC rates with unequal exposures and zero-exposure bins; the compatibility '
                 'guard on misaligned grids. non-trivial = ≥ 3 parts')
     chk.assumptions = TRUSTED
-    chk.lean(['IxpeVerif.Props.C07', 'IxpeVerif.Props.Audit.C07'], ['weighted_average', 'lc_iadd', 'pcube_iadd'])
+    chk.lean(['IxpeVerif.Props.C07', 'IxpeVerif.Props.Audit.C07'], ['weighted_average', 'lc_iadd', 'pcube_iadd', 'pp_iadd', 'pha1_iadd', 'mdpcube_iadd'])
     import corr_gen
-    corr_gen.run(chk, ['weighted_average', 'lc_iadd', 'pcube_iadd'], n=200 if chk.tier == 'quick' else 3000, tag='C07')
+    corr_gen.run(chk, ['weighted_average', 'lc_iadd', 'pcube_iadd', 'pp_iadd', 'pha1_iadd', 'mdpcube_iadd'], n=200 if chk.tier == 'quick' else 3000, tag='C07')
     explore(chk)
     explore(chk, 2)
     explore_bright(chk)
